@@ -623,6 +623,8 @@ def _group_removal(ctx):
     for start in flagged:
         # the part of the iteration that follows the 'found' outcome (up to
         # the loop head): only a flag raised there says "in use"
+        if start is loop:
+            continue            # the outcome ends the iteration: no flag
         region = K.cut_reach(graph, start, cut_node=lambda n: n is loop,
                              follow_exc=False)
         for node in region:
@@ -631,6 +633,26 @@ def _group_removal(ctx):
                     isinstance(node.ast.value, ast.Constant) and \
                     node.ast.value.value is True:
                 flags.add(node.ast.targets[0].id)
+    # a group that is still referenced is shrunk to zero instead (its
+    # identities are revoked by the next cycle): the found outcome reaches
+    # the end of the routine only through <group>.adjust(0)
+    def shrinks(node):
+        return any(K.is_meth(c, 'adjust') and len(c.args) == 1 and
+                   isinstance(c.args[0], ast.Constant) and
+                   c.args[0].value == 0 and not isinstance(
+                       c.args[0].value, bool)
+                   for c in C.node_calls(node))
+    for start in flagged:
+        path = None if shrinks(start) else K.find_path(
+            start, [graph.exit], cut_node=shrinks, follow_exc=False) \
+            if start is not graph.exit else []
+        ctx.ob('C05.6', func, start, path is None,
+               'a group still referenced by an instance is shrunk to zero '
+               '(adjust(0)) on every path from the in-use outcome'
+               if path is None else
+               'the in-use outcome reaches the end of the routine without '
+               'adjust(0): %s' % K.describe(path),
+               construct='referenced group shrunk to zero')
     for node in dels:
         ok = any(K.guarded_by(graph, node, lambda e, f=flag: K.truth_edge(
             nz, e, f, False), start=loop) for flag in flags) or \
@@ -638,6 +660,60 @@ def _group_removal(ctx):
                     for fl in flagged)
         ctx.ob('C05.6', func, node, ok,
                'registry deletion only on the not-in-use outcome')
+
+
+def _group_sync(ctx):
+    """C05.6: the loader drops from the model every identity group the store
+    no longer lists (a group deleted and re-created must not find the old
+    object, with its old holders, still registered) and configures every
+    listed one with the recorded count."""
+    loader = ctx.index.get_class(K.LOADER, 'Loader')
+    func = loader.methods.get('load_identity_groups') if loader else None
+    ctx.require(func is not None, 'Loader.load_identity_groups')
+    graph = ctx.cfg(func)
+    sites = {}
+    for kind in ('remove_identity_group', 'configure_identity_group'):
+        sites[kind] = [(n, c) for n, c in K.nodes_calling(
+            graph, lambda c, k=kind: K.is_meth(c, k))]
+    ctx.require(sites['remove_identity_group'],
+                'removal of the identity groups that left the store (%s)'
+                % func.qualname, rule='C05.6', func=func)
+    ctx.require(sites['configure_identity_group'],
+                'configuration of the listed identity groups (%s)'
+                % func.qualname, rule='C05.6', func=func)
+    for node, call in sites['remove_identity_group']:
+        head = K.enclosing_for(graph, node)
+        dom = K.rtxt(func, head.ast.iter) if head is not None else ''
+        var = sorted(N.for_targets(head))[-1] if head is not None else None
+        ok = head is not None and len(call.args) == 1 and \
+            N.txt(call.args[0]) == var
+        shape = None
+        if head is not None:
+            shape = K.rexpr(func, head.ast.iter)
+        diff = isinstance(shape, ast.BinOp) and isinstance(
+            shape.op, ast.Sub) and \
+            'identity_groups' in N.txt(shape.left) and \
+            'backend.list(' in N.txt(shape.right) and \
+            'identity_groups' not in N.txt(shape.right)
+        ctx.ob('C05.6', func, node, bool(ok and diff),
+               'groups removed = groups of the model minus groups listed in '
+               'the store (%s)' % dom,
+               construct='stale identity groups removed')
+        if head is not None:
+            K.exhaustive_loop(ctx, 'C05.6', func, head,
+                              'removal of stale identity groups')
+            guards = [g for g in K.loop_body_nodes(head)
+                      if g.kind == 'test']
+            ctx.ob('C05.6', func, node, not guards,
+                   'every stale group is removed (no further condition in '
+                   'the removal loop)',
+                   construct='stale identity groups removed '
+                             'unconditionally')
+    for node, call in sites['configure_identity_group']:
+        head = K.enclosing_for(graph, node)
+        if head is not None:
+            K.exhaustive_loop(ctx, 'C05.6', func, head,
+                              'configuration of listed identity groups')
 
 
 def check(ctx):
@@ -649,6 +725,7 @@ def check(ctx):
         c09._unsnapshotted(ctx, ctx.index.get_class(K.MASTER, 'Master'))
     _typestate(ctx)
     _group_removal(ctx)
+    _group_sync(ctx)
     _removal_pairing(ctx)
     _model_removal(ctx)
     _range_maintenance(ctx)
